@@ -154,6 +154,28 @@ def rule_r1(repo, run):
         for k in allkeys:
             specs[(tag, k)] = pyflow.specialize(loop.body, "buf_arg", k)
 
+    # by-value / by-reference agreement: where the C prototype switches between `T x` and `T * x` on an attribute,
+    # the interface must switch the VALUE attribute on the same test
+    def value_tests(tag, k, want_text):
+        out = set()
+        for st, cond, kind in specs[(tag, k)].stmts:
+            for x in ast.walk(st):
+                if isinstance(x, ast.IfExp) and "value" in ast.unparse(x.test):
+                    arms = [pyflow.const_str(x.body) or "", pyflow.const_str(x.orelse) or ""]
+                    if want_text is None or any(want_text in a.lower() for a in arms):
+                        out.add(ast.unparse(x.test))
+        return out
+    for k in allkeys:
+        ct = value_tests("C", k, "*")
+        if not ct:
+            continue
+        it = value_tests("I", k, "value")
+        run.check(R, "wrapf.Wrapf.build_arg_list_interface[buf_arg=%s]:by-value" % k, ct <= it,
+                  "the C prototype passes this argument by value or by pointer depending on %s, but the bind(C) "
+                  "interface does not add VALUE on the same test (%s): C receives an address where it expects the "
+                  "object" % (sorted(ct), sorted(it)), loops["I"][1].loc(loops["I"][0]),
+                  sample=dict(key=k, c_tests=sorted(ct), interface_tests=sorted(it)))
+
     # role inference for receivers
     def receivers(tag):
         decls, others = set(), set()
@@ -863,6 +885,38 @@ def rule_r8(repo, run, table, types):
     run.floor(R, "pointer-result pairs", n, 4)
 
 
+def rule_r9(repo, run):
+    R = run.rule("C04.R9", "when the C return type differs from the library function's (dereferenced pointer result), a "
+                           "C wrapper is generated, so the interface never binds the changed type to the user's function")
+    wc = repo.module("wrapc")
+    f = wc.func("Wrapc.wrap_function")
+    n = 0
+    for asg in ast.walk(f):
+        if not (isinstance(asg, ast.Assign) and (pyflow.dotted(asg.targets[0]) or "").endswith(".C_return_type")):
+            continue
+        call = asg.value
+        if not (isinstance(call, ast.Call) and (pyflow.call_name(call) or "").endswith("gen_arg_as_c")):
+            continue
+        kw = [k for k in call.keywords if k.arg == "as_scalar"]
+        if not kw or (isinstance(kw[0].value, ast.Constant) and kw[0].value.value is False):
+            continue
+        n += 1
+        blk = None
+        par = asg._parent
+        for fld in ("body", "orelse"):
+            l = getattr(par, fld, None)
+            if isinstance(l, list) and any(x is asg for x in l):
+                blk = l
+        forced = any(pattern.has(st, "need_wrapper = True") for st in (blk or []))
+        cond_const = isinstance(kw[0].value, ast.Constant)
+        run.check(R, "wrapc.Wrapc.wrap_function:C_return_type[as_scalar]", forced and cond_const,
+                  "the result is rendered as a scalar (`as_scalar=%s`) %s: without a C wrapper the Fortran interface, "
+                  "which declares the scalar type, is bound directly to the pointer-returning library function"
+                  % (wc.seg(kw[0].value), "but need_wrapper is not forced in this branch" if not forced else
+                     "under a run-time condition that does not force need_wrapper"), wc.loc(asg))
+    run.floor(R, "scalar renderings of a pointer result", n, 1)
+
+
 def run(repo, run, tier):
     tables.check_model_assumptions(repo)
     table = tables.StatementTable(repo, "statements", "fc_statements")
@@ -876,6 +930,7 @@ def run(repo, run, tier):
     rule_r6(repo, run, types)
     rule_r7(repo, run, table)
     rule_r8(repo, run, table, types)
+    rule_r9(repo, run)
     run.assumptions.extend([
         "LP64 / ISO_C_BINDING interoperability table in sa/interop.py",
         "table semantics model (base/mixin/language selection) mirrors statements.update_stmt_tree; "
